@@ -47,6 +47,20 @@ NEEDS = {
  'C16b-bailout-unblock-before-cleanup': 'a pending blocked SIGPIPE/SIGXFSZ at the time of a fatal error: the signal kills the process before cleanup() unlinks the partial output',
  'C18b-warned-overwritten': 'a warning on an earlier operand followed by any later non-fatal message (e.g. -v ratio line) for a good operand',
  'C21b-uninit-after-usr2': 'a write failure late in the run; visible as use of freed state / lost diagnostics only under a specific main/primary thread interleaving',
+ 'C01c-parse-crc-wiped-on-reentry': 'an input-buffer edge between the two 16-bit halves of a block\'s stored CRC: block header 8-9 bytes before file offset 4 + k*262144',
+ 'C02c-pad-with-dummy-selectors': 'level 9 and a completely full 900000-byte block of incompressible data with >= 3 padding bits',
+ 'C04c-collect-capacity-min-input': 'default mode; a short last piece in which runs of exactly four outweigh longer runs',
+ 'C06c-emit-resume-state-2': 'a 900000-byte output-buffer edge exactly after the third byte of a run of >= 4 equal bytes',
+ 'C07c-bwtidx-bound-off-by-one': 'origPtr exactly equal to the block length, with CRCs matching the rotation the decoder then emits',
+ 'C08c-stale-scan-requeue': '>= 2 workers, a scanner overtaken by the master inside its own chunk, an idle worker taking the stale job before the next advance()',
+ 'C12c-select-task-after-init-io': 'the reader delivering its first block before the first pass through sched_mutex; visible to ThreadSanitizer only',
+ 'C13c-scan-prealloc-leak': 'the parser overtaking a scanner still inside scan(); very many tiny blocks; >= 2 workers',
+ 'C14c-scan-skip-live-swap': 're-scan with buffered bits (live > 0), non-zero skip, and a header within 32 bits after the resume point',
+ 'C15c-stream-crc-zero-lenient': 'a stream whose combined CRC has Hamming weight 1, and the flip of exactly that bit',
+ 'C17c-fchmod-skipped-special-bits': 'a regular-file operand whose mode has setuid, setgid or sticky set',
+ 'C19c-request-close-not-reset-in-copy': 'one -cdf invocation in which a non-bzip2 operand follows a decompressed one',
+ 'C20c-sort-alphabet-skips-last': 'a multi-table block whose last group is EOB alone in its table with zero-frequency symbols before it',
+ 'C22c-bzcat-stdout-deferred': 'invoked as bzcat/lbzcat with a final -z/--compress and a FILE operand',
  'C22-env-first-only': 'two of LBZIP2/BZIP2/BZIP set at once, the later one carrying a relevant option',
 }
 
